@@ -50,7 +50,7 @@ func Check(mod *Module, fn string, opts Options, solver *smt.Solver, workers int
 		if co.Replay {
 			for i := range rep.Solved {
 				s := &rep.Solved[i]
-				if s.Status == "sat" && s.Model != nil {
+				if s.Status == "sat" && s.Model != nil && !s.O.Canary {
 					rr, err := Replay(mod, res, s.O, s.Model)
 					if err != nil {
 						rr = &ReplayResult{Status: "error", Detail: err.Error()}
